@@ -217,3 +217,11 @@ def settle(ctx, conds, confirm, engine="XH"):
             det = why if c.kind != "error" else f"{why}: {str(c.detail)[-300:]}"
             ctx.ob(c.name, engine, "inconclusive", secs=c.secs, detail=det)
     return time.time() - t0
+
+
+if __name__ == "__main__":  # probe: python -m vf.xh <harness.py> <func> '<params json>' [timeout]
+    c = Cond("probe", sys.argv[1], sys.argv[2], json.loads(sys.argv[3] if len(sys.argv) > 3 else "{}"), timeout=int(sys.argv[4]) if len(sys.argv) > 4 else 60, twin=None)
+    _do(c)
+    print(c.kind, round(c.secs, 1), c.detail if c.kind != "confirmed" else "")
+    if c.concrete:
+        print(json.dumps(c.concrete, indent=1)[:3000])
